@@ -4,7 +4,10 @@ package openapi3
 // document validation returns normally. Only assumption: the real
 // Schema.Validate returned nil. The engine's panic monitor is the assertion.
 
-import "context"
+import (
+	"context"
+	"math"
+)
 
 func verifAnyFloat(name string) float64 { return verifNondetFloat64(name) }
 
@@ -47,10 +50,17 @@ func verifWildSmall(p string) *Schema {
 	return s
 }
 
+// verifErrText: what a caller does with a returned error - print it.
+func verifErrText(err error) {
+	if err != nil {
+		_ = err.Error()
+	}
+}
+
 func verifAllModes(s *Schema, v any) {
-	_ = s.VisitJSON(v)
+	verifErrText(s.VisitJSON(v))
 	_ = s.VisitJSON(v, FailFast())
-	_ = s.VisitJSON(v, MultiErrors())
+	verifErrText(s.VisitJSON(v, MultiErrors()))
 	_ = s.VisitJSON(v, VisitAsRequest(), MultiErrors())
 	_ = s.VisitJSON(v, VisitAsResponse())
 	_ = s.VisitJSON(v, MultiErrors(), EnableFormatValidation())
@@ -265,5 +275,33 @@ func verifH_C10_untyped_recursive() {
 	_ = node.VisitJSON(v, MultiErrors())
 	_ = node.IsMatching(v)
 	_ = node.IsEmpty()
+	verifReach("end")
+}
+
+//verif:harness id=C10 tier=quick,thorough witness=end bounds="describing an error: values that hold NaN, an infinity or an ordinary number (as YAML bodies can carry them) inside an object or an array, rejected by a keyword of the enclosing value (required, maxProperties, maxItems, type); VisitJSON in default and multi-error mode, then Error() of what was returned: no panic"
+func verifH_C10_error_text() {
+	// concrete floats: the text of the value is written out, which the engine does for concrete numbers only
+	f := []float64{math.NaN(), math.Inf(1), math.Inf(-1), 1.5, 0}[verifChoose("f", 5)]
+	var v any
+	if verifChoose("container", 2) == 0 {
+		v = map[string]any{"a": f}
+	} else {
+		v = []any{f, "s"}
+	}
+	zero := uint64(0)
+	schemas := []*Schema{
+		{Type: &Types{"object"}, Required: []string{"b"}},
+		{Type: &Types{"object"}, MaxProps: &zero},
+		{Type: &Types{"array"}, MaxItems: &zero},
+		{Type: &Types{"string"}},
+		{Type: &Types{"object"}, Properties: Schemas{"a": {Value: &Schema{Type: &Types{"string"}}}}},
+	}
+	s := schemas[verifChoose("schema", len(schemas))]
+	if s.Validate(context.Background()) != nil {
+		return
+	}
+	verifErrText(s.VisitJSON(v))
+	verifErrText(s.VisitJSON(v, MultiErrors()))
+	verifErrText(s.VisitJSON(v, VisitAsRequest()))
 	verifReach("end")
 }
